@@ -52,10 +52,11 @@ class Chunked(Contract):
     assumptions = ('str.lower(): uninterpreted except that lower(a + b) == lower(a) + lower(b) is NOT needed: the header value is given as '
                    'prefix + spelling-of-chunked + optional trailing blanks, and lower() of it is assumed to be lower(prefix) + "chunked" + blanks '
                    '(ASCII case folding is per character)',)
-    expected_labels = ('chunked.final_coding_chunked_is_recognised', 'chunked.absent_header_is_not_chunked')
+    expected_labels = ('chunked.final_coding_chunked_is_recognised', 'chunked.absent_header_is_not_chunked',
+                       'chunked.a_header_that_does_not_name_chunked_is_not_chunked')
 
     def pre(self, X):
-        self.mode = X.choose(2, 'header: final coding is chunked | absent or empty')
+        self.mode = X.choose(3, 'header: final coding is chunked | absent or empty | other codings only')
         self.lower = X.driver.uf('str_lower', StrSort, StrSort)
         self.te = X.fresh(StrSort, 'transfer_encoding')
         if self.mode == 0:
@@ -65,9 +66,13 @@ class Chunked(Contract):
             X.assume(z3.Or(lp == z3.StringVal(''), z3.SuffixOf(z3.StringVal(','), lp), z3.SuffixOf(z3.StringVal(', '), lp),
                            z3.SuffixOf(z3.StringVal(',\t'), lp)))
             X.assume(z3.Or(ws == z3.StringVal(''), ws == z3.StringVal(' '), ws == z3.StringVal('\t')))
-        else:
+        elif self.mode == 1:
             X.assume(self.te == z3.StringVal(''))
             X.assume(self.lower(z3.StringVal('')) == z3.StringVal(''))
+        else:
+            # a value such as 'gzip' / 'identity' / 'deflate, gzip': the word chunked does not occur in it in any letter case.
+            # Such a request is framed by Content-Length (C04): treating it as chunked would decode a plain body as chunks.
+            X.assume(z3.Not(z3.Contains(self.lower(self.te), z3.StringVal('chunked'))))
         c = self
 
         def env_get(X, args, kwargs):
@@ -89,8 +94,10 @@ class Chunked(Contract):
         t = X.truth(ret)
         if self.mode == 0:
             X.prove('chunked.final_coding_chunked_is_recognised', t)
-        else:
+        elif self.mode == 1:
             X.prove('chunked.absent_header_is_not_chunked', z3.Not(t))
+        else:
+            X.prove('chunked.a_header_that_does_not_name_chunked_is_not_chunked', z3.Not(t))
 
     def post_raise(self, X, exc):
         X.prove('raises.nothing', z3.BoolVal(False))
